@@ -293,7 +293,7 @@ def valid_case(case):
         if case.get("mode") in ("threads", "probe", "hashseed"):
             return True
         return isinstance(case["root"], dict) and all(k in KINDS and c in CTXS for k, c in case["ops"]) and len(case["ops"]) >= 1
-    except Exception:
+    except (Exception, HarnessError):
         return False
 
 
